@@ -64,17 +64,31 @@ def run(chk):
     # accessor who-may-call: crate-local callees of the two strategy bodies (+closures)
     for path, allowed in ((LIN, ALLOWED_1D), (BIL, ALLOWED_2D)):
         b = lib.body(path)
-        cs = lib.local_callees(b)
-        for nm, x in cs:
-            chk.ob('R20.2', "%s calls crate function %s, one of the bracket accessors" % (path.split('::')[2], nm), nm in allowed,
-                   line_of(x), 'callee-%s-%s' % (path.split(' as ')[0], nm))
-        chk.ob('R20.2', "%s uses the accessors (found %d crate-local calls)" % (path.split(' as ')[0], len(cs)), len(cs) >= 5, b['span'],
+        # the strategy body plus every private helper it calls (found through the call graph, not by name): none of them may touch the
+        # interpolator except through the accessors, and none may read its fields
+        work, seen, n_acc = [b], set(), 0
+        while work:
+            cur = work.pop()
+            if cur['def'] in seen:
+                continue
+            seen.add(cur['def'])
+            for nm, x in lib.local_callees(cur):
+                if nm in allowed:
+                    n_acc += 1
+                    continue
+                takes_interp = any(('Interp1D<' in a.get('ty', '') or 'Interp2D<' in a.get('ty', '')) for a in x.get('args', []))
+                hb = lib.body(nm)
+                if hb is not None and not nm.startswith(('interp1d::Interp1D::', 'interp2d::Interp2D::')):
+                    work.append(hb)       # a private helper: analysed like the strategy body itself
+                    continue
+                chk.ob('R20.2', "%s reaches the interpolator through %s, which is not one of the bracket accessors" % (path.split(' as ')[0], nm),
+                       not takes_interp and hb is None, line_of(x), 'callee-%s-%s' % (path.split(' as ')[0], nm))
+            for bb, x in lib.all_exprs(cur):
+                if x.get('k') == 'Field' and ('Interp1D<' in x['e']['ty'] or 'Interp2D<' in x['e']['ty']):
+                    chk.ob('R20.2', "%s reads field `%s` of the interpolator directly" % (strip_generics(cur['def']), x['name']), False, line_of(x),
+                           'field-%s-%s' % (path.split(' as ')[0], x['name']))
+        chk.ob('R20.2', "%s (with its private helpers) uses the bracket accessors (found %d accessor calls)" % (path.split(' as ')[0], n_acc), n_acc >= 5, b['span'],
                'callee-floor-' + path.split(' as ')[0])
-        # no direct field access on the interpolator
-        for bb, x in lib.all_exprs(b):
-            if x.get('k') == 'Field' and ('Interp1D<' in x['e']['ty'] or 'Interp2D<' in x['e']['ty']):
-                chk.ob('R20.2', "%s reads field `%s` of the interpolator directly" % (path.split(' as ')[0], x['name']), False, line_of(x),
-                       'field-%s-%s' % (path.split(' as ')[0], x['name']))
     # the bracket index is a function of the ORDER of the axis values only: comparison skeleton of the lookup (shared with C11)
     from . import c11
     c11.analyse(chk, lib, set_text=False)
